@@ -5,6 +5,8 @@ import (
 	"container/ring"
 	"fmt"
 	"os"
+	"runtime/debug"
+	"strings"
 
 	"gopkg.in/typ.v4/lists"
 	"verifharness/internal/core"
@@ -39,7 +41,9 @@ type lh struct {
 func c06list(c *core.Ctx) {
 	r := c.R
 	var hist []string
+	failed := false
 	fail := func(sig, msg string) {
+		failed = true
 		sig = stripDigits(sig)
 		c.Violate("List."+sig, msg+fmt.Sprintf(" [after %d calls]", len(hist)), map[string]any{"history": append([]string{}, hist...)})
 	}
@@ -111,13 +115,13 @@ func c06list(c *core.Ctx) {
 			for e, n := l.g.Front(), 0; e != nil && n <= limit; e, n = e.Next(), n+1 {
 				fg = append(fg, idOfG(e))
 			}
-			for e := l.s.Front(); e != nil; e = e.Next() {
+			for e, n := l.s.Front(), 0; e != nil && n <= limit; e, n = e.Next(), n+1 {
 				fs = append(fs, idOfS(e))
 			}
 			for e, n := l.g.Back(), 0; e != nil && n <= limit; e, n = e.Prev(), n+1 {
 				bg = append(bg, idOfG(e))
 			}
-			for e := l.s.Back(); e != nil; e = e.Prev() {
+			for e, n := l.s.Back(), 0; e != nil && n <= limit; e, n = e.Prev(), n+1 {
 				bs = append(bs, idOfS(e))
 			}
 			if !eqSlice(fg, fs) {
@@ -136,7 +140,7 @@ func c06list(c *core.Ctx) {
 				fail(op+":neighbours", fmt.Sprintf("after %s element %d: Next/Prev = %d/%d, container/list %d/%d", op, id, ng, pg, ns, ps))
 				return false
 			}
-			if h.g.Value != h.s.Value.(int) {
+			if sv, _ := h.s.Value.(int); h.g.Value != sv {
 				fail(op+":value", fmt.Sprintf("after %s element %d: Value %d vs %d", op, id, h.g.Value, h.s.Value))
 				return false
 			}
@@ -144,10 +148,19 @@ func c06list(c *core.Ctx) {
 		return true
 	}
 	// Elements that were inside a list when Init() was called on it keep a stale
-	// owner pointer in BOTH libraries (container/list does not reset them); using
-	// them afterwards corrupts both lists alike and is not what the property is
-	// about (removed / foreign elements), so they are retired.
+	// owner pointer in BOTH libraries (container/list does not reset them). Using
+	// them afterwards relinks orphans, makes Len disagree with the traversals and
+	// can expose the sentinel - in both libraries alike. Three quarters of the
+	// cases retire such elements (clean regime); one quarter keeps using them
+	// ("orphan regime"): "every sequence of operations" includes these, the two
+	// libraries must still agree call by call. There all traversals are bounded,
+	// the sentinel is an anonymous handle (-2), and a panic inside container/list
+	// itself ends the case without a verdict.
 	banned := map[int]bool{}
+	useOrphans := r.Chance(1, 4)
+	if useOrphans {
+		c.Count("list_cases_orphan_regime", 1)
+	}
 	pickElem := func(li int) (int, string) {
 		// classes: live in this list, live in another list, removed, never inserted
 		if len(hs) == 0 {
@@ -155,7 +168,7 @@ func c06list(c *core.Ctx) {
 		}
 		for try := 0; try < 8; try++ {
 			id := r.Intn(len(hs))
-			if !banned[id] {
+			if !banned[id] || useOrphans {
 				return id, ""
 			}
 		}
@@ -177,172 +190,215 @@ func c06list(c *core.Ctx) {
 		if id < 2 {
 			return "never-inserted"
 		}
+		if banned[id] && hs[id].s.Next() != nil {
+			return "orphaned-by-Init"
+		}
 		return "removed"
 	}
 	nops := r.Range(1, 120)
 	val := 0
 	var hh uint64 = 6
 	nontrivial := false
+	// sane: Len agrees with both traversals of the REFERENCE list (always true in the
+	// clean regime). PushBackList/PushFrontList iterate a length fixed up-front and
+	// dereference nil - in both libraries - when it lies.
+	sane := func(x lh) bool {
+		n, m := 0, 0
+		for e := x.s.Front(); e != nil && n <= len(hs)+2; e = e.Next() {
+			if _, ok := e.Value.(int); !ok {
+				return false
+			}
+			n++
+		}
+		for e := x.s.Back(); e != nil && m <= len(hs)+2; e = e.Prev() {
+			m++
+		}
+		return x.s.Len() >= 0 && n == x.s.Len() && m == n
+	}
 	for step := 0; step < nops; step++ {
 		li := r.Intn(nl)
 		l := ls[li]
 		op := r.Pick(14, 14, 8, 8, 10, 6, 6, 6, 6, 1, 5, 5, 3)
+		if useOrphans && r.Chance(1, 12) {
+			op = 9 // Init is rare in the clean regime, less so here
+		}
 		var name string
-		switch op {
-		case 0, 1:
-			val++
-			var g *lists.Element[int]
-			var s *list.Element
-			if op == 0 {
-				name = fmt.Sprintf("l%d.PushFront(%d)", li, val)
-				g, s = l.g.PushFront(val), l.s.PushFront(val)
-			} else {
-				name = fmt.Sprintf("l%d.PushBack(%d)", li, val)
-				g, s = l.g.PushBack(val), l.s.PushBack(val)
-			}
-			hist = append(hist, name)
-			if _, ok := reg(g, s); !ok {
-				fail("Push:return", name+": returned element differs in nil-ness / identity from container/list")
-				return
-			}
-		case 2, 3:
-			id, _ := pickElem(li)
-			if id < 0 {
-				continue
-			}
-			val++
-			cl := classOf(id, li)
-			var g *lists.Element[int]
-			var s *list.Element
-			if op == 2 {
-				name = fmt.Sprintf("l%d.InsertBefore(%d, e%d[%s])", li, val, id, cl)
-				g, s = l.g.InsertBefore(val, hs[id].g), l.s.InsertBefore(val, hs[id].s)
-			} else {
-				name = fmt.Sprintf("l%d.InsertAfter(%d, e%d[%s])", li, val, id, cl)
-				g, s = l.g.InsertAfter(val, hs[id].g), l.s.InsertAfter(val, hs[id].s)
-			}
-			hist = append(hist, name)
-			c.Count("insert_mark_"+cl, 1)
-			if cl != "live-here" {
-				nontrivial = true
-			}
-			if _, ok := reg(g, s); !ok {
-				fail("Insert:return", fmt.Sprintf("%s: returned nil=%v, container/list nil=%v", name, g == nil, s == nil))
-				return
-			}
-		case 4:
-			id, _ := pickElem(li)
-			if id < 0 {
-				continue
-			}
-			cl := classOf(id, li)
-			name = fmt.Sprintf("l%d.Remove(e%d[%s])", li, id, cl)
-			hist = append(hist, name)
-			vg, vs := l.g.Remove(hs[id].g), l.s.Remove(hs[id].s)
-			c.Count("remove_"+cl, 1)
-			if cl != "live-here" {
-				nontrivial = true
-			}
-			if vg != vs.(int) {
-				fail("Remove:return", fmt.Sprintf("%s returned %d, container/list %v", name, vg, vs))
-				return
-			}
-		case 5, 6:
-			id, _ := pickElem(li)
-			if id < 0 {
-				continue
-			}
-			cl := classOf(id, li)
-			if op == 5 {
-				name = fmt.Sprintf("l%d.MoveToFront(e%d[%s])", li, id, cl)
-				l.g.MoveToFront(hs[id].g)
-				l.s.MoveToFront(hs[id].s)
-			} else {
-				name = fmt.Sprintf("l%d.MoveToBack(e%d[%s])", li, id, cl)
-				l.g.MoveToBack(hs[id].g)
-				l.s.MoveToBack(hs[id].s)
-			}
-			hist = append(hist, name)
-			c.Count("move_"+cl, 1)
-		case 7, 8:
-			id, _ := pickElem(li)
-			mk, _ := pickElem(li)
-			if id < 0 || mk < 0 {
-				continue
-			}
-			if r.Chance(1, 6) {
-				mk = id
-			}
-			c1, c2 := classOf(id, li), classOf(mk, li)
-			if op == 7 {
-				name = fmt.Sprintf("l%d.MoveBefore(e%d[%s], e%d[%s])", li, id, c1, mk, c2)
-				l.g.MoveBefore(hs[id].g, hs[mk].g)
-				l.s.MoveBefore(hs[id].s, hs[mk].s)
-			} else {
-				name = fmt.Sprintf("l%d.MoveAfter(e%d[%s], e%d[%s])", li, id, c1, mk, c2)
-				l.g.MoveAfter(hs[id].g, hs[mk].g)
-				l.s.MoveAfter(hs[id].s, hs[mk].s)
-			}
-			hist = append(hist, name)
-			c.Count("movepair_"+c1+"/"+c2, 1)
-			if c1 != "live-here" || c2 != "live-here" {
-				nontrivial = true
-			}
-		case 9:
-			name = fmt.Sprintf("l%d.Init()", li)
-			hist = append(hist, name)
-			for e := l.s.Front(); e != nil; e = e.Next() {
-				banned[idOfS(e)] = true
-			}
-			if l.g.Init() != l.g {
-				fail("Init:return", "Init did not return its receiver")
-				return
-			}
-			l.s.Init()
-			c.Count("init", 1)
-		case 10, 11:
-			oi := r.Intn(nl)
-			o := ls[oi]
-			if op == 10 {
-				name = fmt.Sprintf("l%d.PushBackList(l%d)", li, oi)
-			} else {
-				name = fmt.Sprintf("l%d.PushFrontList(l%d)", li, oi)
-			}
-			hist = append(hist, name)
-			if o.s.Len() > 60 {
-				continue
-			}
-			fmt.Fprintf(os.Stderr, "VWORK-OP %s (len %d)\n", name, o.s.Len())
-			// the library under test first: a broken implementation of the self-push never returns
-			if op == 10 {
-				l.g.PushBackList(o.g)
-				l.s.PushBackList(o.s)
-			} else {
-				l.g.PushFrontList(o.g)
-				l.s.PushFrontList(o.s)
-			}
-			if oi == li {
-				c.Count("pushlist_self", 1)
-				nontrivial = true
-			} else {
-				c.Count("pushlist_other", 1)
-			}
-			// the copies are new elements: register them pairwise by walking both lists
-			eg, es := l.g.Front(), l.s.Front()
-			for n := 0; eg != nil && es != nil && n < 4000; n++ {
-				if _, ok := reg(eg, es); !ok {
-					fail("PushList:elements", name+": element identities diverge from container/list")
+		stop := false
+		func() {
+			defer func() {
+				if pv := recover(); pv != nil {
+					st := string(debug.Stack())
+					stop = true
+					if useOrphans && strings.Contains(st, "container/list.") && !strings.Contains(st, "typ.v4/lists.") {
+						c.Count("list_orphan_cases_ended_by_reference_panic", 1)
+						return
+					}
+					fail("panic", fmt.Sprintf("%s panicked: %v\n%s", name, pv, st))
+				}
+			}()
+			switch op {
+			case 0, 1:
+				val++
+				var g *lists.Element[int]
+				var s *list.Element
+				if op == 0 {
+					name = fmt.Sprintf("l%d.PushFront(%d)", li, val)
+					g, s = l.g.PushFront(val), l.s.PushFront(val)
+				} else {
+					name = fmt.Sprintf("l%d.PushBack(%d)", li, val)
+					g, s = l.g.PushBack(val), l.s.PushBack(val)
+				}
+				hist = append(hist, name)
+				if _, ok := reg(g, s); !ok {
+					fail("Push:return", name+": returned element differs in nil-ness / identity from container/list")
 					return
 				}
-				eg, es = eg.Next(), es.Next()
+			case 2, 3:
+				id, _ := pickElem(li)
+				if id < 0 {
+					return
+				}
+				val++
+				cl := classOf(id, li)
+				var g *lists.Element[int]
+				var s *list.Element
+				if op == 2 {
+					name = fmt.Sprintf("l%d.InsertBefore(%d, e%d[%s])", li, val, id, cl)
+					g, s = l.g.InsertBefore(val, hs[id].g), l.s.InsertBefore(val, hs[id].s)
+				} else {
+					name = fmt.Sprintf("l%d.InsertAfter(%d, e%d[%s])", li, val, id, cl)
+					g, s = l.g.InsertAfter(val, hs[id].g), l.s.InsertAfter(val, hs[id].s)
+				}
+				hist = append(hist, name)
+				c.Count("insert_mark_"+cl, 1)
+				if cl != "live-here" {
+					nontrivial = true
+				}
+				if _, ok := reg(g, s); !ok {
+					fail("Insert:return", fmt.Sprintf("%s: returned nil=%v, container/list nil=%v", name, g == nil, s == nil))
+					return
+				}
+			case 4:
+				id, _ := pickElem(li)
+				if id < 0 {
+					return
+				}
+				cl := classOf(id, li)
+				name = fmt.Sprintf("l%d.Remove(e%d[%s])", li, id, cl)
+				hist = append(hist, name)
+				vg, vs := l.g.Remove(hs[id].g), l.s.Remove(hs[id].s)
+				c.Count("remove_"+cl, 1)
+				if cl != "live-here" {
+					nontrivial = true
+				}
+				if vsi, _ := vs.(int); vg != vsi {
+					fail("Remove:return", fmt.Sprintf("%s returned %d, container/list %v", name, vg, vs))
+					return
+				}
+			case 5, 6:
+				id, _ := pickElem(li)
+				if id < 0 {
+					return
+				}
+				cl := classOf(id, li)
+				if op == 5 {
+					name = fmt.Sprintf("l%d.MoveToFront(e%d[%s])", li, id, cl)
+					l.g.MoveToFront(hs[id].g)
+					l.s.MoveToFront(hs[id].s)
+				} else {
+					name = fmt.Sprintf("l%d.MoveToBack(e%d[%s])", li, id, cl)
+					l.g.MoveToBack(hs[id].g)
+					l.s.MoveToBack(hs[id].s)
+				}
+				hist = append(hist, name)
+				c.Count("move_"+cl, 1)
+			case 7, 8:
+				id, _ := pickElem(li)
+				mk, _ := pickElem(li)
+				if id < 0 || mk < 0 {
+					return
+				}
+				if r.Chance(1, 6) {
+					mk = id
+				}
+				c1, c2 := classOf(id, li), classOf(mk, li)
+				if op == 7 {
+					name = fmt.Sprintf("l%d.MoveBefore(e%d[%s], e%d[%s])", li, id, c1, mk, c2)
+					l.g.MoveBefore(hs[id].g, hs[mk].g)
+					l.s.MoveBefore(hs[id].s, hs[mk].s)
+				} else {
+					name = fmt.Sprintf("l%d.MoveAfter(e%d[%s], e%d[%s])", li, id, c1, mk, c2)
+					l.g.MoveAfter(hs[id].g, hs[mk].g)
+					l.s.MoveAfter(hs[id].s, hs[mk].s)
+				}
+				hist = append(hist, name)
+				c.Count("movepair_"+c1+"/"+c2, 1)
+				if c1 != "live-here" || c2 != "live-here" {
+					nontrivial = true
+				}
+			case 9:
+				name = fmt.Sprintf("l%d.Init()", li)
+				hist = append(hist, name)
+				for e := l.s.Front(); e != nil; e = e.Next() {
+					banned[idOfS(e)] = true
+				}
+				if l.g.Init() != l.g {
+					fail("Init:return", "Init did not return its receiver")
+					return
+				}
+				l.s.Init()
+				c.Count("init", 1)
+			case 10, 11:
+				oi := r.Intn(nl)
+				o := ls[oi]
+				if op == 10 {
+					name = fmt.Sprintf("l%d.PushBackList(l%d)", li, oi)
+				} else {
+					name = fmt.Sprintf("l%d.PushFrontList(l%d)", li, oi)
+				}
+				hist = append(hist, name)
+				if o.s.Len() > 60 || !sane(o) || !sane(l) {
+					name = ""
+					return
+				}
+				fmt.Fprintf(os.Stderr, "VWORK-OP %s (len %d)\n", name, o.s.Len())
+				// the library under test first: a broken implementation of the self-push never returns
+				if op == 10 {
+					l.g.PushBackList(o.g)
+					l.s.PushBackList(o.s)
+				} else {
+					l.g.PushFrontList(o.g)
+					l.s.PushFrontList(o.s)
+				}
+				if oi == li {
+					c.Count("pushlist_self", 1)
+					nontrivial = true
+				} else {
+					c.Count("pushlist_other", 1)
+				}
+				// the copies are new elements: register them pairwise by walking both lists
+				eg, es := l.g.Front(), l.s.Front()
+				for n := 0; eg != nil && es != nil && n < 4000; n++ {
+					if _, ok := reg(eg, es); !ok {
+						fail("PushList:elements", name+": element identities diverge from container/list")
+						return
+					}
+					eg, es = eg.Next(), es.Next()
+				}
+			case 12:
+				name = fmt.Sprintf("l%d.Front/Back", li)
+				hist = append(hist, name)
+				if idOfG(l.g.Front()) != idOfS(l.s.Front()) || idOfG(l.g.Back()) != idOfS(l.s.Back()) {
+					fail("Front/Back", fmt.Sprintf("Front/Back = %d/%d, container/list %d/%d", idOfG(l.g.Front()), idOfG(l.g.Back()), idOfS(l.s.Front()), idOfS(l.s.Back())))
+					return
+				}
 			}
-		case 12:
-			name = fmt.Sprintf("l%d.Front/Back", li)
-			hist = append(hist, name)
-			if idOfG(l.g.Front()) != idOfS(l.s.Front()) || idOfG(l.g.Back()) != idOfS(l.s.Back()) {
-				fail("Front/Back", fmt.Sprintf("Front/Back = %d/%d, container/list %d/%d", idOfG(l.g.Front()), idOfG(l.g.Back()), idOfS(l.s.Front()), idOfS(l.s.Back())))
-				return
-			}
+		}()
+		if stop || failed {
+			return
+		}
+		if name == "" {
+			continue
 		}
 		hh = core.Mix(hh, core.HashString(name))
 		c.Count("list_calls", 1)
@@ -505,6 +561,9 @@ func c06ring(c *core.Ctx) {
 			}
 		case 2:
 			n := r.Range(-12, 12)
+			if r.Chance(1, 6) {
+				n = r.Range(-700, 700) // many laps
+			}
 			name = fmt.Sprintf("r%d.Move(%d)", id, n)
 			if a, b := idG(h.g.Move(n)), idS(h.s.Move(n)); a != b {
 				fail("Move:return", fmt.Sprintf("%s = element %d, container/ring %d", name, a, b))
